@@ -345,6 +345,10 @@ class Macro(Composite, StaticNode, ScrapesIO, ABC):
             ):
                 if len(target_node.channel.connections) == 1:
                     macro_input.value_receiver = target_node.channel.connections[0]
+                else:
+                    # Nobody uses this argument; don't stay linked to the node we are
+                    # about to remove (the link could never be restored from storage)
+                    macro_input.value_receiver = None
                 self.remove_child(target_node)
                 remaining_ui_nodes.remove(target_node)
         return tuple(remaining_ui_nodes)
@@ -434,6 +438,7 @@ class Macro(Composite, StaticNode, ScrapesIO, ABC):
         return [
             (c.label, (c.value_receiver.owner.label, c.value_receiver.label))
             for c in self.inputs
+            if c.value_receiver is not None
         ]
 
     @property
